@@ -130,6 +130,15 @@ class Classifier:
         return None
 
 
+def _block_of_stmt(st):
+    p_ = parent(st)
+    for fld in ("body", "orelse", "finalbody"):
+        lst = getattr(p_, fld, None)
+        if isinstance(lst, list) and st in lst:
+            return lst
+    return []
+
+
 def _buffer_items(x, buf):
     """expressions a statement node puts into the buffered list: buf.append(e), buf.extend([e..]), buf += [e..]"""
     if not buf:
@@ -300,14 +309,18 @@ def _lines_rule(cx, lines):
     buf_inits = [s for s in walk_local(lines) if isinstance(s, ast.Assign) and isinstance(s.value, ast.List) and not s.value.elts and isinstance(s.targets[0], ast.Name)]
     cx.need(buf_inits, "R11d", lines, "line buffer")
     b = buf_inits[0].targets[0].id
-    top = [s for s in lp.body if isinstance(s, ast.If)]
-    ok = len(lp.body) == 1 and len(top) == 1 and norm(top[0].test) == f"{v} is None"
-    if ok:
-        body, orelse = top[0].body, top[0].orelse
-        ys = [s for s in body if isinstance(s, ast.Expr) and isinstance(s.value, ast.Yield)]
-        rs = [s for s in body if isinstance(s, ast.Assign) and is_name(s.targets[0], b) and isinstance(s.value, ast.List) and not s.value.elts]
-        ok = len(ys) == 1 and norm(ys[0].value.value) == f"CHText.make({b})" and len(rs) == 1 and body.index(ys[0]) < body.index(rs[0]) and \
-            len(orelse) == 1 and norm(orelse[0]) == f"{b}.append({v})"
+    from sa.guards import canon_facts
+    apps_ = [c for c in ast.walk(lp) if isinstance(c, ast.Call) and call_name(c) == "append" and is_name(c.func.value, b)]
+    ys = [s for s in ast.walk(lp) if isinstance(s, ast.Expr) and isinstance(s.value, ast.Yield)]
+    rs = [s for s in ast.walk(lp) if isinstance(s, ast.Assign) and is_name(s.targets[0], b)]
+    if len(apps_) != 1 or len(ys) != 1 or len(rs) != 1:
+        raise AnalysisError("R11d", f"{REL}::PrettyPrinter._gen_ch_lines", "line cutting loop not recognised (one append, one yield, one reset expected)")
+    is_nl, not_nl = ("is", v, "None", True), ("is", v, "None", False)
+    ok = [norm(a) for a in apps_[0].args] == [v] and not_nl in canon_facts(apps_[0]) \
+        and norm(ys[0].value.value) == f"CHText.make({b})" and is_nl in canon_facts(ys[0]) \
+        and isinstance(rs[0].value, ast.List) and not rs[0].value.elts and is_nl in canon_facts(rs[0]) \
+        and parent(ys[0]) is parent(rs[0]) and _block_of_stmt(ys[0]).index(ys[0]) < _block_of_stmt(rs[0]).index(rs[0]) \
+        and not any(isinstance(x, ast.Break) for x in ast.walk(lp))
     cx.ob("R11d", lp, ok, "a line is emitted exactly at each NL and every other chunk is kept, in order" if ok else "line cutting is not `if chunk is None: yield line; reset else: append`")
     after = lines.body[lines.body.index(lp) + 1:]
     ok = len(after) == 1 and isinstance(after[0], ast.If) and norm(after[0].test) == b and any(isinstance(s, ast.Expr) and isinstance(s.value, ast.Yield) and norm(s.value.value) == f"CHText.make({b})" for s in after[0].body)
@@ -350,7 +363,12 @@ def _kinds(cx, simple, is_simple, gen, obj):
                 calls.append((e.func.attr, e.args[0] if e.args else None))
                 # the text of the argument is only meaningful while the parameter still holds the value that came in
                 same = env.get(sv) == val
-                return K("other", False, "chunk:" + e.func.attr + ":" + norm(e.args[0] if e.args else e) + ("" if same else f" [with {sv} re-bound to another value before]"))
+                arg_txt = norm(e.args[0] if e.args else e)
+                if e.args:
+                    av = it_.ev(e.args[0], env)
+                    if isinstance(av, C) and isinstance(av.v, str):
+                        arg_txt = repr(av.v)         # a constant however it is spelled (`"{}" if is_dict else "[]"`)
+                return K("other", False, "chunk:" + e.func.attr + ":" + arg_txt + ("" if same else f" [with {sv} re-bound to another value before]"))
             return None
         it2.call_hook = hook2
         outs = it2.run(simple.body, {sv: val})
